@@ -206,11 +206,19 @@ class Type3Tag(nfc.tag.Tag):
                 log.debug("unsupported ndef mapping major version")
                 return None
 
+            if attributes['nbr'] == 0:
+                log.debug("no blocks can be read from this tag")
+                return None
+            if attributes['ln'] > attributes['nmaxb'] * 16:
+                log.debug("ndef data length exceeds the data area")
+                return None
+
             last_block_number = 1 + (attributes['ln'] + 15) // 16
+            nbr = min(attributes['nbr'], 15)  # max blocks in one response
             data = bytearray()
 
-            for i in range(1, last_block_number, attributes['nbr']):
-                last_block = min(i + attributes['nbr'], last_block_number)
+            for i in range(1, last_block_number, nbr):
+                last_block = min(i + nbr, last_block_number)
                 block_list = range(i, last_block)
                 try:
                     data += self.tag.read_from_ndef_service(*block_list)
